@@ -178,8 +178,13 @@ def run(ctx):
             "rts ; done", "sei\nclc\nxce ; native", "nop\t;", "x = (((((1)))))\n", "x = " + "(" * 200 + "1" + ")" * 200 + "\n",
             ".macro m(a\n", "m(1,\n", ".if 1 {\n} else\n", ".db " + ",".join(["1"] * 3000) + "\n",
         ]
+        fam += [".table 't.tbl'\n{\n{\n.text 'ab'\n}\n}\n", "{\n.text 'a'\n}\n", ".text 'a'\n", "{\n{\n{\n.text 'ba'\n}\n}\n}\n",
+                ".table 't.tbl'\n.macro t() {\n.text 'ab'\n}\n{\nt()\nt()\n}\n", ".scope s {\n.for i := 0, 2 {\n.text 'b'\n}\n}\n"]
         for src in fam:
-            progs.append({"src": src, "rom": "low_rom", "files": {"self.s": ".include 'self.s'\n"}, "bins": {}, "hist": {}})
+            progs.append({"src": src, "rom": "low_rom", "files": {"self.s": ".include 'self.s'\n", "t.tbl": "01=a\n02=b\n"}, "bins": {}, "hist": {}})
+        import gen_wild
+        for _ in range(150 if tier == "quick" else 3000):
+            progs.append(gen_wild.generate(rng, drv))
         for pr, r, m in run_.run(progs, trace=False):
             s3.cases += 1
             s3.count(r["status"] + (":" + str(r["exc"]) if r["status"] == "rejected" else ""))
